@@ -172,6 +172,7 @@ TEXT_LINES = [
   "a </b> b",
   "<b><i>n</i></b>",
   "{underline}w{/underline} {u}z{/u}",
+  '<font color="#00ff0000">t</font><font color="blue">n</font>',
 ]
 
 _TOKEN = re.compile(r"<(/?)(b|i|u|bold|italic|underline|font)(?: color=\"([^\"]*)\")?>|\{(/?)(b|i|u|bold|italic|underline)\}", re.I)
@@ -198,7 +199,12 @@ def reference_cue(text):
       else:
         reference_cue.ill_nested = True
     else:
-      stack.append((name, m.group(3).lower() if name == "font" and m.group(3) else None))
+      col = None
+      if name == "font" and m.group(3):
+        v = m.group(3).lower()
+        named = {"blue": "#0000ffff", "red": "#ff0000ff"}
+        col = named.get(v, v if len(v) == 9 else v + "ff")
+      stack.append((name, col))
   for ch in text[pos:]:
     out.append((ch, frozenset(stack)))
   return out
@@ -219,7 +225,7 @@ def observed_paragraph(p):
         st.add(("u", None))
       c = e.get_style(SP.Color)
       if c is not None:
-        st.add(("font", "#%02x%02x%02x" % tuple(c.components[:3])))
+        st.add(("font", "#%02x%02x%02x%02x" % tuple(c.components)))
     if isinstance(e, model.Text):
       for ch in e.get_text():
         out.append((ch, frozenset(st)))
@@ -267,8 +273,8 @@ class SrtStructureHarness(Harness):
         if c == len(TEXT_LINES):
           break
         t1.append(TEXT_LINES[c])
-    lines += ["1" + eol, "00:00:01,000 --> 00:00:02,500" + eol] + [t + eol for t in t1]
-    cues.append((Fraction(1), Fraction(5, 2), t1))
+    lines += ["1" + eol, "00:00:01,001 --> 00:00:24,317" + eol] + [t + eol for t in t1]
+    cues.append((Fraction(1001, 1000), Fraction(24317, 1000), t1))
     two = ex.boolean("second_cue")
     if two:
       ex.witness("two-cues")
@@ -300,7 +306,7 @@ class SrtStructureHarness(Harness):
     if len(ps) != len(want):
       return
     for p, (b, e, ts) in zip(ps, want):
-      ex.prove(p.get_begin() == b and p.get_end() == e, "C10:cue-times", shape)
+      ex.prove(isinstance(p.get_begin(), (Fraction, int)) and p.get_begin() == b and p.get_end() == e, "C10:cue-times", shape)
       exp = reference_cue("\n".join(ts))
       ill = reference_cue.ill_nested
       got = observed_paragraph(p)
